@@ -63,6 +63,11 @@ def check_shift(ctx, kind, c, desc, sdesc):
         ctx.count("not_buildable(C12's business)")
         return
     sh = impl.build_duration(sdesc)
+    try:
+        hash(r)     # r has been used as a key (hashed, printed) before it is shifted
+        str(r)
+    except Exception:
+        pass
     ok, s = _guard(ctx, sig, case, "r + d", lambda: r + sh)
     if not ok:
         return
@@ -105,6 +110,17 @@ def check_shift(ctx, kind, c, desc, sdesc):
                 ctx.violation("shift_moves_every_point", sig, case, {"moved_by_s": str(slen), "len": len(ir)},
                               {"before": [impl.sstr(p) for p in pr[:5]], "after": [impl.sstr(p) for p in ps[:5]]})
             ctx.outcome("series_len", len(ir))
+    # the shifted value hashes like an equal recurrence built from scratch (from its own text)
+    if exact or nominal:
+        try:
+            from metomi.isodatetime.parsers import TimeRecurrenceParser
+            twin = TimeRecurrenceParser().parse(str(s))
+            ctx.transitions += 2
+            if twin == s and hash(twin) != hash(s):
+                ctx.violation("shifted_hash", sig, case, {"twin": str(twin), "hash": hash(twin)},
+                              {"shifted": str(s), "hash": hash(s)})
+        except Exception:
+            pass
     # either operand order; subtraction is addition of the negation
     ok, s2 = _guard(ctx, sig, case, "d + r", lambda: sh + r)
     if ok and not (s2 == s and _obs(c, s2) == o1):
